@@ -484,3 +484,11 @@ for n in ["c06_walk_find_fat16_any_chain", "c06_walk_find_fat32_any_chain"]:
 
 UW_LFN = [("iterate_fat16", r"chunks_exact", 8), ("iterate_fat16", r".", 3)]
 H("C17", "vk_fat", "c17_dir_lfn_runs", desc="iterate_dir_lfn over 5 fully symbolic directory slots (LfnBuffer ops stubbed): never crashes; a long name is reported for the k-th entry iff a complete, descending, 0x40-started fragment run with matching checksum directly precedes it", bounds="FAT16 root, slots 0-4 fully symbolic, k symbolic", kani_args=_stubfat, unwindset=UW_LFN, timeout=2400, cost=4, mem_gb=30)
+
+_gw = "VolumeManager::write extending the file, over the ghost FAT (next_cluster and alloc_cluster stubbed; contracts: c05_next_cluster_*, c05_alloc16_*): "
+for n, t, pr in [("c01_gwrite_extend_one", "quick", "C01"), ("c01_gwrite_extend_stale_cursor", "quick", "C01"), ("c01_gwrite_first_cluster", "thorough", "C01"), ("c01_gwrite_extend_two", "thorough", "C01"),
+                 ("c05_gwrite_last_free_cluster", "quick", "C05"), ("c05_gwrite_disk_full_partial", "quick", "C05"), ("c05_gwrite_disk_full_none", "thorough", "C05")]:
+    H(pr, "vk_fsop", n, tier=t, desc=_gw + _wr + "; the allocator is asked to link behind the chain's tail; DiskFull exactly when no cluster is free, with the bytes that fit written", bounds="payload and old contents symbolic; chain/size/offset/cursor/length/free map concrete per instance", kani_args=["-Z", "stubbing"], timeout=2400, cost=4, mem_gb=30)
+H("C03", "vk_fsop", "c01_gwrite_extend_stale_cursor", desc=_gw + "chain stays well formed when the cursor cache is several clusters behind the write position", bounds="see C01", kani_args=["-Z", "stubbing"], timeout=2400, cost=4, mem_gb=30)
+
+H("C05", "vk_fsop", "c05_delete_releases_clusters", desc="delete_file_in_dir of a closed 2-cluster file (directory functions scripted, ghost FAT): afterwards its clusters are free", bounds="chain 3->5, other clusters used", kani_args=["-Z", "stubbing"], timeout=900, cost=2, mem_gb=16)
